@@ -5,23 +5,33 @@
 //!                    dir = rdf_direction none / i18n-datatype / compound-literal, same on both sides)
 //!   d ...same...                                          debug: also prints the JSON text / parsed quads (stderr)
 //! reply (implementation):
-//!   dom=<0|1>        1 = every IRI of the expressible quads is absolute (the property's domain);
-//!                    0 = differential only (no oracle)
+//!   dom=<0|1>        1 = the request is in the property's domain: every IRI of the expressible quads is absolute,
+//!                    rdf:JSON literals are valid JSON, i18n datatypes are well-formed; 0 = differential only (no oracle)
 //!   panic=<0|1>      the REAL serializer panicked (then FAIL.panic=<hex message> when dom=1)
-//!   err=<0|1>        the serializer returned an error
+//!   err=<0|1>        the serializer returned an error (then FAIL.error=<hex message> when dom=1: an expressible
+//!                    dataset must be serialised)
+//!   hang=1           the REAL code (serializer / parser) did not answer within REQ_TIMEOUT seconds (watched worker
+//!                    thread; FAIL.hang=<seconds> when dom=1); after MAX_HANGS such requests the rest is `skipped=1`
 //!   json=<canon>     canonical rendering of the JSON text (see `canon`), parsed with json-syntax
 //!   kept=<n>         number of distinct input quads that `is_jsonld` (re-stated here on abstract terms) keeps
 //!   rt=<0|1>         REAL JsonLdParser on the REAL output is isomorphic (exact test below) to the kept quads
 //!   rtn=<n>          number of distinct quads parsed back
 //!   FAIL.roundtrip=<detail> when rt=0 and dom=1
+//!   jfy=<same|iso|lossy|err|panic>  the other implementation of `QuadSerializer`, `Jsonifier` (target = a JSON value), on
+//!                    a serializer that has already been used for another dataset (state must not leak between two
+//!                    `serialize_quads` calls): same = same document as the stringifier (canonical comparison);
+//!                    iso = another document that round-trips as well; lossy / err / panic = FAIL.jsonifier=<detail> (dom=1)
 use json_syntax::{Parse, Print, Value};
 use sophia_api::prelude::*;
 use sophia_api::quad::Spog;
 use sophia_api::serializer::{QuadSerializer, Stringifier};
 use sophia_api::source::QuadSource;
 use sophia_api::term::SimpleTerm;
-use sophia_jsonld::{JsonLdOptions, JsonLdParser, JsonLdSerializer, ProcessingMode, RdfDirection};
+use sophia_jsonld::{Jsonifier, JsonLdOptions, JsonLdParser, JsonLdSerializer, ProcessingMode, RdfDirection};
 use std::collections::{BTreeMap, BTreeSet};
+use std::sync::mpsc;
+use std::sync::Mutex;
+use std::time::Duration;
 use vhcore::tgen;
 use vhcore::util::*;
 use vhcore::GenCtx;
@@ -111,6 +121,8 @@ fn absolute(i: &str) -> bool {
 fn term_in_domain(t: &T) -> bool {
     match t {
         T::Iri(i) => absolute(i),
+        // "rdf:JSON literals in canonical form": at the very least the lexical form is a JSON text
+        T::Lit(l, d) if d == generator::RDF_JSON => Value::parse_str(l, |_| ()).is_ok(),
         T::Lit(_, d) => absolute(d),
         _ => true,
     }
@@ -203,7 +215,8 @@ pub fn isomorphic(a: &BTreeSet<Q>, b: &BTreeSet<Q>) -> Option<bool> {
         }
     }
     // backtracking over signature-compatible bijections; every complete assignment is checked exactly
-    let mut budget: u64 = 2_000_000;
+    // (the budget counts every node of the search tree; when it runs out the verdict is `unknown`, never a failure)
+    let mut budget: u64 = 400_000;
     let mut used = vec![false; bb.len()];
     let mut m = BTreeMap::new();
     fn go(
@@ -218,8 +231,8 @@ pub fn isomorphic(a: &BTreeSet<Q>, b: &BTreeSet<Q>) -> Option<bool> {
         b: &BTreeSet<Q>,
         budget: &mut u64,
     ) -> Option<bool> {
+        *budget = budget.checked_sub(1)?;
         if i == ba.len() {
-            *budget = budget.checked_sub(1)?;
             return Some(a.iter().all(|q| b.contains(&rename_q(q, m))));
         }
         for j in 0..bb.len() {
@@ -277,12 +290,15 @@ fn lost_extra(kept: &BTreeSet<Q>, got: &BTreeSet<Q>) -> (Vec<String>, Vec<String
 
 // ------------------------------------------------------------------ exec
 
+#[derive(Clone)]
 pub struct Req {
     pub mode: ProcessingMode,
     pub urt: bool,
     pub dir: Option<RdfDirection>,
     pub spaces: u16,
     pub quads: Vec<Q>,
+    pub debug: bool,
+    pub dom: bool,
 }
 
 pub fn parse_req(f: &[&str]) -> Option<Req> {
@@ -312,7 +328,8 @@ pub fn parse_req(f: &[&str]) -> Option<Req> {
     if it.next().is_some() {
         return None;
     }
-    Some(Req { mode, urt, dir, spaces, quads })
+    let dom = in_domain(&quads, dir);
+    Some(Req { mode, urt, dir, spaces, quads, debug: f.first() == Some(&"d"), dom })
 }
 
 fn options(r: &Req) -> JsonLdOptions<sophia_jsonld::loader_factory::DefaultLoaderFactory<sophia_jsonld::loader::NoLoader>> {
@@ -323,30 +340,207 @@ fn options(r: &Req) -> JsonLdOptions<sophia_jsonld::loader_factory::DefaultLoade
     }
 }
 
-pub fn exec(line: &str) -> String {
-    let f: Vec<&str> = line.split_whitespace().collect();
-    let debug = f.first() == Some(&"d");
-    if !matches!(f.first(), Some(&"s") | Some(&"d")) {
-        return "bad-op".into();
+/// outcome of a call into the real code: `Err` = it panicked (message), `Ok(Err)` = it returned an error
+type Outcome<X> = Result<Result<X, String>, String>;
+
+/// everything the REAL code says about one request; computed on the watched worker thread, so it holds
+/// plain data only.  The harness' own (possibly expensive) isomorphism test is NOT part of it.
+struct Real {
+    ser: Outcome<String>,
+    /// canonical rendering of the serializer's text (`unparsable` when it is not JSON)
+    json: Option<String>,
+    /// the text parsed back by the real parser (dom = 1 only)
+    back: Option<Outcome<BTreeSet<Q>>>,
+    /// `Jsonifier` used for a second dataset: its document (canonical rendering, compact text)
+    jfy: Option<Outcome<(String, String)>>,
+    /// the jsonifier's document parsed back, when it differs from the stringifier's (dom = 1 only)
+    jback: Option<Outcome<BTreeSet<Q>>>,
+}
+
+fn parse_back(req: &Req, txt: &str) -> Outcome<BTreeSet<Q>> {
+    catch(std::panic::AssertUnwindSafe(|| {
+        let p = JsonLdParser::new_with_options(options(req));
+        let mut got: BTreeSet<Q> = BTreeSet::new();
+        let r = p.parse_str(txt).for_each_quad(|q| {
+            got.insert(tgen::view_quad(q));
+        });
+        r.map(|_| got).map_err(|e| e.to_string())
+    }))
+}
+
+/// the dataset a `Jsonifier` is used for before the request's own dataset: lists, a named graph, a blank graph,
+/// labels and IRIs of the generator's alphabets (whatever leaks from it into the second document shows)
+fn warmup() -> Vec<Q> {
+    let i = |s: &str| T::Iri(s.to_string());
+    let b = |s: &str| T::Bnode(s.to_string());
+    let r = |s: &str| T::Iri(format!("{}{}", generator::RDF, s));
+    let g = Some(i("http://x/g0"));
+    let mut v = vec![];
+    for (gr, cell) in [(None, "c0"), (g.clone(), "c1"), (Some(b("b0")), "l0")] {
+        v.push(Q { s: i("http://x/s0"), p: i("http://x/p0"), o: b(cell), g: gr.clone() });
+        v.push(Q { s: b(cell), p: r("first"), o: i("http://x/s1"), g: gr.clone() });
+        v.push(Q { s: b(cell), p: r("rest"), o: r("nil"), g: gr.clone() });
+        v.push(Q { s: b("b1"), p: r("type"), o: i("http://x/C"), g: gr.clone() });
     }
-    let Some(req) = parse_req(&f) else { return "bad-op".into() };
-    let dom = in_domain(&req.quads, req.dir);
+    v.push(Q { s: b("b2"), p: r("value"), o: T::Lit("v".into(), format!("{}string", generator::XSD)), g: None });
+    v.push(Q { s: b("b2"), p: r("direction"), o: T::Lit("rtl".into(), format!("{}string", generator::XSD)), g: None });
+    v
+}
+
+fn run_real(req: &Req) -> Real {
     let ds: Vec<Spog<SimpleTerm<'static>>> = req.quads.iter().map(tgen::q_to_simple).collect();
-    let kept: BTreeSet<Q> = req.quads.iter().filter(|q| expressible(q)).cloned().collect();
-    let mut out = format!("dom={}", dom as u8);
-    // 1. the real serializer
-    let ser = catch(std::panic::AssertUnwindSafe(|| {
-        let mut s = JsonLdSerializer::new_stringifier_with_options(options(&req));
+    // 1. the real serializer, text target
+    let ser: Outcome<String> = catch(std::panic::AssertUnwindSafe(|| {
+        let mut s = JsonLdSerializer::new_stringifier_with_options(options(req));
         match s.serialize_dataset(&ds) {
             Ok(_) => Ok(s.to_string()),
             Err(e) => Err(e.to_string()),
         }
     }));
-    let txt = match ser {
+    let mut real = Real { ser, json: None, back: None, jfy: None, jback: None };
+    let txt = match &real.ser {
+        Ok(Ok(t)) => t.clone(),
+        _ => String::new(),
+    };
+    if let Ok(Ok(_)) = &real.ser {
+        if req.debug {
+            eprintln!("{}", txt);
+        }
+        // 2. JSON-level view
+        real.json = Some(match Value::parse_str(&txt, |_| ()) {
+            Ok(v) => canon(&v.0, false),
+            Err(_) => "unparsable".to_string(),
+        });
+        // 3. semantic round trip through the real parser
+        if req.dom {
+            real.back = Some(parse_back(req, &txt));
+        }
+    }
+    // 4. the other `QuadSerializer`: `Jsonifier`, second use of one serializer
+    let wds: Vec<Spog<SimpleTerm<'static>>> = warmup().iter().map(tgen::q_to_simple).collect();
+    let jfy: Outcome<(String, String)> = catch(std::panic::AssertUnwindSafe(|| {
+        let mut j = Jsonifier::new_jsonifier_with_options(options(req));
+        j.serialize_dataset(&wds).map_err(|e| format!("warmup: {}", e))?;
+        j.serialize_dataset(&ds).map_err(|e| e.to_string())?;
+        let v = j.to_json();
+        Ok((canon(&v, false), v.compact_print().to_string()))
+    }));
+    if req.dom {
+        if let (Ok(Ok((c, t))), Some(sc)) = (&jfy, &real.json) {
+            if c != sc {
+                real.jback = Some(parse_back(req, t));
+            }
+        }
+    }
+    real.jfy = Some(jfy);
+    real
+}
+
+// ------------------------------------------------------------------ the watchdog
+//
+// The real code runs on a worker thread; a request that is not answered within REQ_TIMEOUT seconds is reported as
+// `hang=1` for THAT request (the thread is abandoned, a new worker takes over), instead of stalling the whole run
+// until the outer timeout of check.py.  REQ_TIMEOUT is four orders of magnitude above the time a request takes
+// (milliseconds), so that a loaded machine cannot turn a slow case into a report.
+
+const REQ_TIMEOUT_S: u64 = 60;
+const MAX_HANGS: usize = 2;
+
+struct Worker {
+    tx: mpsc::Sender<Req>,
+    rx: mpsc::Receiver<Real>,
+}
+
+fn spawn_worker() -> Worker {
+    let (tx, wrx) = mpsc::channel::<Req>();
+    let (wtx, rx) = mpsc::channel::<Real>();
+    std::thread::Builder::new()
+        .stack_size(64 << 20)
+        .spawn(move || {
+            while let Ok(req) = wrx.recv() {
+                if wtx.send(run_real(&req)).is_err() {
+                    return;
+                }
+            }
+        })
+        .expect("worker thread");
+    Worker { tx, rx }
+}
+
+static WORKER: Mutex<Option<Worker>> = Mutex::new(None);
+static HANGS: Mutex<usize> = Mutex::new(0);
+
+fn timeout_s() -> u64 {
+    std::env::var("VH_C12_REQ_TIMEOUT").ok().and_then(|s| s.parse().ok()).unwrap_or(REQ_TIMEOUT_S)
+}
+
+enum Watched {
+    Done(Real),
+    Hang(u64),
+    Skipped,
+}
+
+fn watched(req: &Req) -> Watched {
+    if *HANGS.lock().unwrap() >= MAX_HANGS {
+        return Watched::Skipped;
+    }
+    let mut guard = WORKER.lock().unwrap();
+    for _attempt in 0..2 {
+        if guard.is_none() {
+            *guard = Some(spawn_worker());
+        }
+        let w = guard.as_ref().unwrap();
+        if w.tx.send(req.clone()).is_err() {
+            *guard = None; // the worker is gone (cannot happen: panics are caught inside): start another one
+            continue;
+        }
+        let t = timeout_s();
+        match w.rx.recv_timeout(Duration::from_secs(t)) {
+            Ok(r) => return Watched::Done(r),
+            Err(mpsc::RecvTimeoutError::Timeout) => {
+                *guard = None; // abandon the thread that is still running the request
+                *HANGS.lock().unwrap() += 1;
+                return Watched::Hang(t);
+            }
+            Err(mpsc::RecvTimeoutError::Disconnected) => {
+                *guard = None;
+                continue;
+            }
+        }
+    }
+    Watched::Hang(0)
+}
+
+fn short(s: &str, n: usize) -> String {
+    hex(&s.chars().take(n).collect::<String>())
+}
+
+pub fn exec(line: &str) -> String {
+    let f: Vec<&str> = line.split_whitespace().collect();
+    if !matches!(f.first(), Some(&"s") | Some(&"d")) {
+        return "bad-op".into();
+    }
+    let Some(req) = parse_req(&f) else { return "bad-op".into() };
+    let dom = req.dom;
+    let debug = req.debug;
+    let kept: BTreeSet<Q> = req.quads.iter().filter(|q| expressible(q)).cloned().collect();
+    let mut out = format!("dom={}", dom as u8);
+    let real = match watched(&req) {
+        Watched::Done(r) => r,
+        Watched::Hang(t) => {
+            out += " hang=1";
+            if dom {
+                out += &format!(" FAIL.hang={}s", t);
+            }
+            return out;
+        }
+        Watched::Skipped => return out + " skipped=1",
+    };
+    match &real.ser {
         Err(msg) => {
             out += " panic=1";
             if dom {
-                out += &format!(" FAIL.panic={}", hex(&msg.chars().take(120).collect::<String>()));
+                out += &format!(" FAIL.panic={}", short(msg, 120));
             }
             return out;
         }
@@ -354,50 +548,88 @@ pub fn exec(line: &str) -> String {
             if debug {
                 eprintln!("serializer error: {}", e);
             }
-            return out + " panic=0 err=1";
+            out += " panic=0 err=1";
+            if dom {
+                out += &format!(" FAIL.error={}", short(e, 120));
+            }
+            return out;
         }
-        Ok(Ok(t)) => t,
-    };
+        Ok(Ok(_)) => {}
+    }
     out += " panic=0 err=0";
-    if debug {
-        eprintln!("{}", txt);
-    }
-    // 2. JSON-level view
-    match Value::parse_str(&txt, |_| ()) {
-        Ok(v) => out += &format!(" json={}", canon(&v.0, false)),
-        Err(_) => out += " json=unparsable",
-    }
+    out += &format!(" json={}", real.json.as_deref().unwrap_or("unparsable"));
     out += &format!(" kept={}", kept.len());
+    // the other implementation of the trait
+    let verdict = |back: &Outcome<BTreeSet<Q>>, what: &str, out: &mut String| -> Option<bool> {
+        match back {
+            Err(msg) => {
+                *out += &format!(" {}=parser-panic:{}", what, short(msg, 80));
+                Some(false)
+            }
+            Ok(Err(e)) => {
+                *out += &format!(" {}=parser-error:{}", what, short(e, 80));
+                Some(false)
+            }
+            Ok(Ok(got)) => match isomorphic(&kept, got) {
+                Some(true) => Some(true),
+                Some(false) => {
+                    let (lost, extra) = lost_extra(&kept, got);
+                    *out += &format!(" {}=L{}.X{}", what, hex(&lost.join(";")), hex(&extra.join(";")));
+                    Some(false)
+                }
+                None => None,
+            },
+        }
+    };
+    match &real.jfy {
+        Some(Ok(Ok((c, t)))) => {
+            if Some(c) == real.json.as_ref() {
+                out += " jfy=same";
+            } else if let Some(jb) = &real.jback {
+                if debug {
+                    eprintln!("jsonifier: {}", t);
+                }
+                let mut detail = String::new();
+                match verdict(jb, "FAIL.jsonifier", &mut detail) {
+                    Some(true) => out += " jfy=iso",
+                    Some(false) => out += &format!(" jfy=lossy{}", detail),
+                    None => out += " jfy=unknown",
+                }
+            } else {
+                out += " jfy=diff";
+            }
+        }
+        Some(Ok(Err(e))) => {
+            out += " jfy=err";
+            if dom {
+                out += &format!(" FAIL.jsonifier=error:{}", short(e, 80));
+            }
+        }
+        Some(Err(m)) => {
+            out += " jfy=panic";
+            if dom {
+                out += &format!(" FAIL.jsonifier=panic:{}", short(m, 80));
+            }
+        }
+        None => {}
+    }
     if !dom {
         return out;
     }
-    // 3. semantic round trip through the real parser
-    let back = catch(std::panic::AssertUnwindSafe(|| {
-        let p = JsonLdParser::new_with_options(options(&req));
-        let mut got: BTreeSet<Q> = BTreeSet::new();
-        let r = p.parse_str(&txt).for_each_quad(|q| {
-            got.insert(tgen::view_quad(q));
-        });
-        r.map(|_| got).map_err(|e| e.to_string())
-    }));
-    match back {
-        Err(msg) => out += &format!(" rt=0 FAIL.roundtrip=parser-panic:{}", hex(&msg.chars().take(80).collect::<String>())),
-        Ok(Err(e)) => out += &format!(" rt=0 FAIL.roundtrip=parser-error:{}", hex(&e.chars().take(80).collect::<String>())),
-        Ok(Ok(got)) => {
+    if let Some(back) = &real.back {
+        if let Ok(Ok(got)) = back {
             if debug {
-                for q in &got {
+                for q in got {
                     eprintln!("  back: {:?}", q);
                 }
             }
             out += &format!(" rtn={}", got.len());
-            match isomorphic(&kept, &got) {
-                Some(true) => out += " rt=1",
-                Some(false) => {
-                    let (lost, extra) = lost_extra(&kept, &got);
-                    out += &format!(" rt=0 FAIL.roundtrip=L{}.X{}", hex(&lost.join(";")), hex(&extra.join(";")));
-                }
-                None => out += " rt=unknown",
-            }
+        }
+        let mut detail = String::new();
+        match verdict(back, "FAIL.roundtrip", &mut detail) {
+            Some(true) => out += " rt=1",
+            Some(false) => out += &format!(" rt=0{}", detail),
+            None => out += " rt=unknown",
         }
     }
     out
